@@ -25,6 +25,8 @@ PROPS["C05"] = {
 PROPS["C07"] = {
     "lean_module": "RaftVerif.Props.C07",
     "theorems": [
+        T("SV.campaign_leader_needs_quorum", "a candidate becomes leader only with a quorum of the voters of its latest configuration; its own vote counts only if it is a voter of it"),
+        T("SV.campAsked_voters", "a candidate asks only voters of its latest configuration for pre-votes and votes"),
         T("C07.next_config_delta_le_one_voter", "voter sets of a configuration and its successor differ at most on the named server"),
         T("C07.touches_only_target", "every other server entry is carried over unchanged, all five commands"),
         T("C07.next_config_wellformed", "results have non-empty unique ids and addresses and at least one voter"),
@@ -73,6 +75,7 @@ SV_NOTE = "handlers modelled as write plans (Model/Server.lean): every durable w
 PROPS["C01"] = {
     "lean_module": "RaftVerif.Props.C01",
     "theorems": [
+        T("SV.campaign_leader_needs_quorum", "one pass of the candidate loop ends in leadership only with a quorum (of the latest configuration's voters) of granted votes, the server's own counted only if it is a voter"),
         T("SV.election_safety_sv", "a cluster of stepped servers, each an arbitrary run (any start image, any messages / snapshots / restarts, any write failure or crash ordinal): two candidates holding granted answers of one term from quorums of one voter configuration, or of two configurations one voter apart, are the same candidate"),
         T("SV.run_one_vote_per_term", "per server, along every run: two granted answers of one term name one candidate"),
         T("RP.election_safety", "cluster model (any size, fixed membership): two election wins in one term are by the same server, over all schedules, message loss/duplication/delay and crashes between the vote writes", "partial"),
@@ -176,13 +179,15 @@ PROPS["C11"] = {
 PROPS["C14"] = {
     "lean_module": "RaftVerif.Props.C14",
     "theorems": [
+        T("SV.campaign_no_quorum_inert", "one pass of the real candidate loop (stepped model SV.campaign), pre-vote on, no transfer pending: a pre-vote round with fewer grants than the quorum and no newer term in sight writes nothing and leaves the server's state - its term - as it was"),
+        T("SV.campaign_alone_inert", "in particular when nobody answers and the server is not the only voter: an isolated server never raises its term, however often it campaigns"),
         T("SV.prevote_inert", "RequestPreVote writes nothing, changes no volatile state, hands nothing to the FSM - whatever is armed"),
         T("SV.prevote_event_inert", "in the stepped world a pre-vote event leaves the whole server state unchanged"),
         T("SV.prevote_grant_sound", "a pre-vote is granted only to an up-to-date voter, never against a known leader, never for an older term"),
     ],
     "engines": [handlers("C14"), universe("C14", 3000, 60000)],
     "assumptions": [SV_NOTE],
-    "level_note": "partial: `isolated server never increases its term` needs the candidate loop (preElectSelf tally) in the model; the handler half is proved.",
+    "level_note": "partial: handler half and candidate loop are proved on the stepped model; the follower loop's heartbeat timeout (the step from follower to candidate) and the rejoin clause rest on the cluster engine.",
 }
 
 PROPS["C07"]["engines"] += [universe("C07", 6000, 100000), cluster("C07")]
@@ -328,4 +333,4 @@ SINKFAULT = {"engine": "sinkfault", "bin": "h1", "quick": ["-n", "400"], "thorou
 PROPS["C15"]["engines"].append(SINKFAULT)
 PROPS["C11"]["engines"].append(SINKFAULT)
 
-HOOK_COMMITS = ["dfecdf5", "9779dc0", "4292c91"]
+HOOK_COMMITS = ["dfecdf5", "9779dc0", "4292c91", "99b3530"]
